@@ -500,8 +500,7 @@ def families(ctx):
 
 def run(ctx):
     from . import c08_extra
-    for name, fn in families(ctx) + c08_extra.families(ctx):
-        ctx.guarded(name, fn)
+    ctx.run_families(families(ctx) + c08_extra.families(ctx))
     ctx.bounds += ['one operation from an arbitrary state satisfying the representation invariant (7 conjuncts, see evidence samples) => operation histories of any length; ids range over an uninterpreted sort']
     ctx.assumptions += ['abstract-map model of linked_hash_map::LinkedHashMap / linked_hash_set::LinkedHashSet (entry, Vacant/OccupiedEntry, or_default, insert, remove, get, contains_key, is_empty, one-element collect) as SMT arrays',
                         'Policy::{id,template,template_arc}, Template::id as uninterpreted functions; Arc<Template> equality = equality of abstract templates (what `==` compares on Template / Policy / TemplateBodyImpl / StaticPolicy is its own obligation: every component but the source location)',
